@@ -50,6 +50,7 @@ void ds_set_sighandler(void (*fn)(int tid));
 /* freeze / solo (C17) */
 void ds_solo_gate(void);			/* solo thread blocks here until the freeze step */
 int ds_solo_active(void);
+int ds_solo_thaw(void);			/* C17: resume every suspended thread, return once all of them have finished (1), or 0 when not in solo mode */
 unsigned long ds_solo_yields(void);
 unsigned long ds_my_steps(void);
 /* C17 helper shared by scenarios: ds_solo_op_begin() before / ds_solo_op_end(what, bound) after an operation the calling thread issues after its gate;
